@@ -90,6 +90,8 @@ type SessSpec struct {
 	RollbackAlso map[int]int    `json:"rollback_also,omitempty"` // vb -> a second request index that is answered ROLLBACK(R) as well
 	// HoldConsAtStart: the consumer blocks inside its very first delivery (until "releasecons"); installed before Start()
 	HoldConsAtStart bool `json:"hold_cons_at_start,omitempty"`
+	// FailoverLogDelayMs: the node answers failover-log requests that much later
+	FailoverLogDelayMs int `json:"failover_log_delay_ms,omitempty"`
 	// DiskMarkers: the node announces every snapshot as an on-disk (backfill) snapshot
 	DiskMarkers bool `json:"disk_markers,omitempty"`
 	// FileSparse: the pre-written checkpoint file holds the PreStore entries only (written under a narrower assignment)
@@ -444,6 +446,20 @@ func RunSession(spec *SessSpec) *Trace {
 			f = append(f, cbsim.Failover{UUID: e[0], Seq: e[1]})
 		}
 		env.Sim.SetFailover(uint16(vb), f)
+	}
+	if spec.FailoverLogDelayMs > 0 {
+		// a node that is slow to answer failover-log requests
+		prevHook := env.Sim.Hook
+		d := time.Duration(spec.FailoverLogDelayMs) * time.Millisecond
+		env.Sim.Hook = func(r *cbsim.Req) *cbsim.Action {
+			if r.Op == cbsim.OpDcpFailoverLog {
+				return &cbsim.Action{Delay: d, Async: true}
+			}
+			if prevHook != nil {
+				return prevHook(r)
+			}
+			return nil
+		}
 	}
 	collFail := new(int32)
 	for _, st := range spec.Steps {
